@@ -81,6 +81,22 @@ def run(chk, hb, sb, workdir, tier):
             "o1": "increment_decrement" if "increment_decrement" in cat["optimizations"] else cat["optimizations"][0],
             "o2": "solidity_math" if "solidity_math" in cat["optimizations"] else cat["optimizations"][1],
             "q1": cat["qa"][0], "zz": "not_a_documented_pattern"}
+    items = []
+    for b in beh:
+        inp = b["inp"]
+        cinp = {"flag": inp["flag"], "contracts": inp["contracts"], "toml": []}
+        if inp["toml"]:
+            t = inp["toml"][0]
+            cinp["toml"] = [{"path": t["path"], "optimizations": [real[n] for n in t["optimizations"]],
+                             "vulnerabilities": [real[n] for n in t["vulnerabilities"]], "qa": [real[n] for n in t["qa"]]}]
+        items.append({"inp": cinp, "rep0": b["rep0"]})
+    return execute(hb, sb, items, workdir)
+
+
+def execute(hb, sb, items, workdir):
+    """Runs the real binary on concrete inputs [{"inp": [flag, toml (real names), contracts], "rep0": absent|stale}];
+    returns (records for TV_Solstat, path of the world file)."""
+    cat = bindrive.extract_catalogue()
     cont = {c: open(os.path.join(DIRWALK, c + ".sol"), "rb").read() for c in ("c1", "c2", "c3")}
     # per-file results in isolation, for every documented pattern
     res = {}
@@ -112,7 +128,7 @@ def run(chk, hb, sb, workdir, tier):
         rpath = os.path.join(work, "solstat_report.md")
         stale = b"# stale report of an earlier run\n- Old.sol:1\n"
         pathof = {"P": "../P", "E": "../E", "Q": "../Q", "contracts": "./contracts"}
-        for i, b in enumerate(beh):
+        for i, b in enumerate(items):
             inp = b["inp"]
             if inp["contracts"] and not os.path.isdir(cdir):
                 _materialise(cdir, TREES["contracts"], cont)
@@ -124,18 +140,15 @@ def run(chk, hb, sb, workdir, tier):
                 with open(rpath, "wb") as f:
                     f.write(stale)
             args = []
-            cinp = {"flag": inp["flag"], "contracts": inp["contracts"], "toml": []}
+            cinp = inp
             if inp["flag"]:
                 args += ["--path", pathof[inp["flag"]]]
             if inp["toml"]:
                 t = inp["toml"][0]
-                ct = {"path": t["path"]}
                 with open(os.path.join(root, "cfg.toml"), "w") as f:
                     f.write("path = %s\n" % json.dumps(pathof[t["path"]]))
                     for k in ("optimizations", "vulnerabilities", "qa"):
-                        ct[k] = [real[n] for n in t[k]]
-                        f.write("%s = [%s]\n" % (k, ", ".join(json.dumps(n) for n in ct[k])))
-                cinp["toml"] = [ct]
+                        f.write("%s = [%s]\n" % (k, ", ".join(json.dumps(n) for n in t[k])))
                 args += ["--toml", "../cfg.toml"]
             before = bindrive.snapshot(root)
             code, err = bindrive.run_solstat(sb, work, args)
